@@ -2,6 +2,7 @@
 pub mod blob;
 pub mod chain;
 pub mod hdrref;
+pub mod headerex;
 pub mod longchain;
 pub mod mutate;
 pub mod panicsite;
